@@ -20,18 +20,20 @@ TARGET = "x86_64-sysv"
 
 # ----------------------------------------------------------------------------------------------
 # rendering a history as a translation unit
-def decl_text(d, i, sfx=""):
-    d = dict(d, id=d["id"] + sfx)
+def specifiers(d):
     sc = {"none": "", "static": "static ", "extern": "extern "}[d["sc"]]
-    tls = "_Thread_local " if d["tls"] else ""
-    inl = "inline " if d["inl"] else ""
-    asm = ' __asm__("lbl.%s")' % d["id"] if d["asm"] else ""
+    return "%s%s%sint " % (sc, "_Thread_local " if d["tls"] else "", "inline " if d["inl"] else "")
+
+
+def declarator_text(d, i, sfx=""):
+    """init-declarator (or function definition) without the declaration specifiers"""
+    name = d["id"] + sfx
+    asm = ' __asm__("lbl.%s")' % name if d["asm"] else ""
     if d["kind"] == "obj":
-        init = " = %d" % (100 + i) if d["def"] == "init" else ""
-        return "%s%sint %s%s%s;" % (sc, tls, d["id"], asm, init)
+        return "%s%s%s" % (name, asm, " = %d" % (100 + i) if d["def"] == "init" else "")
     if d["def"] == "body":
-        return "%s%sint %s(int a)%s { return %d; }" % (sc, inl, d["id"], asm, 100 + i)
-    return "%s%sint %s(int a)%s;" % (sc, inl, d["id"], asm)
+        return "%s(int a)%s { return %d; }" % (name, asm, 100 + i)
+    return "%s(int a)%s" % (name, asm)
 
 
 def use_text(d, i, sfx=""):
@@ -40,9 +42,14 @@ def use_text(d, i, sfx=""):
 
 
 def render(hist, skip=(), sfx=""):
-    """sfx: appended to every identifier and scaffolding function (several units in one gcc run)"""
+    """sfx: appended to every identifier and scaffolding function (several units in one gcc run).
+    Events with join = true are further declarators of the previous declaration (init-declarator list); the uses of
+    all declarators of a declaration follow its semicolon."""
     out, cur = [], []
-    for i, d in enumerate(hist, 1):
+    n = len(hist)
+    i = 1
+    while i <= n:
+        d = hist[i - 1]
         p = d["path"]
         k = 0
         while k < len(cur) and k < len(p) and cur[k] == p[k]:
@@ -54,9 +61,16 @@ def render(hist, skip=(), sfx=""):
             out.append("\t" * len(cur) + ("void g%d%s(void) {" % (b, sfx) if not cur else "{"))
             cur.append(b)
         ind = "\t" * len(cur)
-        out.append(ind + decl_text(d, i, sfx))
-        if i not in skip:
-            out.append(ind + use_text(d, i, sfx) if cur else "void u%d%s(void) { %s }" % (i, sfx, use_text(d, i, sfx)))
+        group = [i]
+        while i + len(group) - 1 < n and hist[i + len(group) - 1].get("join"):
+            group.append(i + len(group))
+        text = specifiers(d) + ", ".join(declarator_text(hist[j - 1], j, sfx) for j in group)
+        out.append(ind + text + ("" if d["kind"] == "func" and d["def"] == "body" else ";"))
+        for j in group:
+            if j not in skip:
+                u = use_text(hist[j - 1], j, sfx)
+                out.append(ind + u if cur else "void u%d%s(void) { %s }" % (j, sfx, u))
+        i += len(group)
     while cur:
         cur.pop()
         out.append("\t" * len(cur) + "}")
@@ -66,7 +80,7 @@ def render(hist, skip=(), sfx=""):
 def canon_hist(hist):
     def one(d):
         return "%s/%s%s%s%s/%s/%s/%s" % ("".join(map(str, d["path"])) or "file", d["sc"], "+tls" if d["tls"] else "",
-                                        "+inline" if d["inl"] else "", "+asm" if d["asm"] else "", d["kind"], d["def"], d["id"])
+                                        "+inline" if d["inl"] else "", "+asm" if d["asm"] else "", d["kind"], d["def"], d["id"]) + (",joined" if d.get("join") else "")
     return "[" + ", ".join(one(d) for d in hist) + "]"
 
 
@@ -708,6 +722,9 @@ def run(ctx):
     #      declarations (tentative / initialised / static / extern), every interleaving of <= 4 (quick) / <= 5 declarations
     rt, unitst = stream(ctx, objdir, "MC_Linkage_tent_quick.cfg" if q else "MC_Linkage_tent_thorough.cfg", "t", stats,
                         keep_units=400 if q else 1000, keep_stride=11, workers=8)
+    # B3. one declaration with an init-declarator list of up to 3 declarators x, y, z (objects and functions, every
+    #     storage class, file and block scope), labelled and unlabelled declarators in every order
+    stream(ctx, objdir, "MC_Linkage_decl_quick.cfg", "d", stats, workers=8, keep_units=150, keep_stride=9)
     # C. random multi-identifier units
     r3, units3 = stream(ctx, objdir, "MC_Linkage_sim.cfg", "s", stats, simulate=1 if q else 24, depth=12, keep_units=100 if q else 400, workers=4 if q else 8)   # num is per worker; TLC checks (and so emits) every generated successor
     # vacuity guard: every rule of the specification and every named deviation occurred
